@@ -7,6 +7,7 @@ import (
 	"go/token"
 	"go/types"
 	"sort"
+	"strings"
 
 	"golang.org/x/tools/go/ssa"
 )
@@ -213,7 +214,11 @@ func (x *Exec) mapGetVal(st *State, ms mapShape, ref, k Term) Value {
 	case KSlice:
 		b := comp("#b", SInt)
 		x.notFutureRef(b)
-		return VSlice{Backing{Heap: true, Ref: b}, comp("#o", SInt), comp("#l", SInt), comp("#c", SInt)}
+		sv := VSlice{Backing{Heap: true, Ref: b}, comp("#o", SInt), comp("#l", SInt), comp("#c", SInt)}
+		if !strings.Contains(sv.Len.S, "!q") {
+			x.fact("slice:"+sv.Len.S, And(Ge(sv.Off, IntLit(0)), Ge(sv.Len, IntLit(0)), Le(sv.Len, sv.Cap), Le(sv.Cap, BigLit(pow2(48)))))
+		}
+		return sv
 	case KIface:
 		return VIface{comp("#t", SInt), comp("#v", SInt)}
 	case KStruct:
